@@ -1,93 +1,31 @@
-"""C01 agreement: Tendermint.tla exhaustively model-checked (Byzantine budget 0/1, unequal powers), plus
+"""C01 agreement: Tendermint.tla exhaustively model-checked (Byzantine budget 0/1/2, unequal powers), plus
 witness and simulated behaviours (unbounded Byzantine sends, several heights, crashes) replayed on real
 pbft.ConsensusState nodes with every node compared with the spec state after every action."""
-import copy
-
-from .. import engine
 from . import tm_common as tm
+from .tm_family import Plan, run_family
 
 
-def configs(tier):
+def plan(tier):
+    p = Plan()
     quick = tier == 'quick'
-    ex = [tm.Cfg('n4-b0-r1', [1, 1, 1, 1], [4], max_round=1, budget=0)]
+    goals = ['NoDecision', 'NoLock', 'NoRound1']
+    p.exhaustive = [(tm.Cfg('n3p112-b1-r1', [1, 1, 2], [1], max_round=1, budget=1), goals)]
     if not quick:
-        ex += [tm.Cfg('n4-b1-r1', [1, 1, 1, 1], [4], max_round=1, budget=1),
-               tm.Cfg('n3p112-b0-r1', [1, 1, 2], [1], max_round=1, budget=0),
-               tm.Cfg('n4-b0-r2', [1, 1, 1, 1], [4], max_round=2, budget=0)]
-    return ex
-
-
-def sim_cfgs():
-    # open adversary, several heights, no schedule reduction
-    return [tm.Cfg('sim-n4', [1, 1, 1, 1], [4], max_round=2, max_height=2, nbyz=2, budget=-1, own_first=False,
-                   useful_only=False),
-            tm.Cfg('sim-n3p112', [1, 1, 2], [2], max_round=2, max_height=2, nbyz=1, budget=-1, own_first=False,
-                   useful_only=False),
-            tm.Cfg('sim-n4-useful', [1, 1, 1, 1], [1], max_round=3, max_height=3, nbyz=1, budget=6, own_first=False,
-                   useful_only=True),
-            tm.Cfg('sim-n4-crash', [1, 1, 1, 1], [4], max_round=2, max_height=2, nbyz=1, budget=4, crashes=3,
-                   crash_set=[1, 2, 3], own_first=False, useful_only=True)]
-
-
-WITNESS_GOALS = ['NoDecision', 'NoLock', 'NoRound1']
-
-
-def run_family(ctx, pid, replay=None, goals=WITNESS_GOALS):
-    engine.build_go(ctx, ['csim'])
-    if replay is not None:
-        rep = engine.run_driver(ctx, 'csim', [replay['trace']], timeout=600)
-        engine.collect(ctx, rep, [replay['trace']], 'csim')
-        ctx.cov['traces_validated_against_impl'] = 1
-        ctx.cov['states'] = ctx.cov['transitions'] = max(1, len(replay['trace']['steps']))
-        ctx.sample({'replayed': len(replay['trace']['steps'])})
-        return
-    quick = ctx.tier == 'quick'
-    traces = []
-    for cfg in configs(ctx.tier):
-        r = tm.check(ctx, cfg, timeout=900 if quick else 5400)
-        if r.violation:
-            ctx.inconclusive.append('spec invariant %s violated in %s (a defect of the specification or design, to be '
-                                    'replayed against the code before it is a verdict)' % (r.violation, cfg.name))
-        for g in goals:
-            wr, w = tm.witness(ctx, cfg, g, timeout=600)
-            if w:
-                traces.append(w)
-    n_sim = 40 if quick else 400
-    for cfg in sim_cfgs():
-        r, ts = tm.simulate(ctx, cfg, n_sim, 70 if quick else 120, ctx.seed, timeout=900)
-        ctx.add_tlc('Tendermint/' + cfg.name, r, exhaustive=False)
-        ctx.log('simulated %s: %d behaviours' % (cfg.name, len(ts)))
-        traces += ts
-    # binding self-test: corrupt one expected vote
-    probe = None
-    for t in traces:
-        if len(t['steps']) > 3:
-            probe = copy.deepcopy(t)
-            probe['steps'] = probe['steps'][:4]
-            nd = probe['steps'][3]['post']['node']
-            first = nd[0] if isinstance(nd, list) else nd[sorted(nd)[0]]
-            first['st'] = 8 if first.get('st') != 8 else 1
-            break
-    if probe:
-        rep = engine.run_driver(ctx, 'csim', [probe], timeout=300)
-        ctx.cov['binding_selftest'] = 'rejected' if rep.get('failures') else 'ACCEPTED'
-        if not rep.get('failures'):
-            ctx.inconclusive.append('binding self-test: corrupted trace accepted')
-    rep = engine.run_driver(ctx, 'csim', traces, timeout=3000)
-    engine.collect(ctx, rep, traces, 'csim')
-    ctx.cov['traces_validated_against_impl'] = rep['traces']
-    ctx.cov['evaluations'] = rep['steps']
-    ctx.cov['impl_checks'] = rep['checks']
-    ctx.cov['distinct_nontrivial'] = sum(1 for t in traces if tm.nontrivial(t))
-    ctx.cov['rule'] = ('behaviours = TLC counterexamples to reachability goals (decision, lock, round change) + '
-                       'tlc -simulate random behaviours of the open-adversary configurations; non-trivial = reaches '
-                       'round >= 1, a lock, a decision, or contains a Byzantine message / crash')
-    for t in traces[:2]:
-        ctx.sample({'id': t['id'], 'actions': ['%s%s' % (s['a'], s['args']) for s in t['steps'][:8]]})
-    ctx.assumptions += ['signatures unforgeable; sign-bytes injective (a vote is identified by chain,h,r,type,block id)',
-                        'small scope: <=4 validators, rounds<=3, heights<=3; blocks are a single part',
-                        'the reactor gossip layer is replaced by the scheduler (any delivery order, duplication, loss)']
+        p.exhaustive += [(tm.Cfg('n4-b0-r1', [1, 1, 1, 1], [4], max_round=1, budget=0), goals),
+                         (tm.Cfg('n3p112-b2-r1', [1, 1, 2], [1], max_round=1, budget=2), ['NoCommitFromLaterRound']),
+                         (tm.Cfg('n3p112-b0-r1-h2', [1, 1, 2], [2], max_round=1, max_height=2, budget=0), [])]
+    n = 30 if quick else 300
+    d = 70 if quick else 120
+    p.sims = [(tm.Cfg('sim-n4', [1, 1, 1, 1], [4], max_round=2, max_height=2, nbyz=2, budget=-1, own_first=False,
+                      useful_only=False), n, d),
+              (tm.Cfg('sim-n3p112', [1, 1, 2], [2], max_round=2, max_height=2, nbyz=1, budget=-1, own_first=False,
+                      useful_only=False), n, d),
+              (tm.Cfg('sim-n4-useful', [1, 1, 1, 1], [1], max_round=3, max_height=3, nbyz=1, budget=6, own_first=False,
+                      useful_only=True), n, d + 40),
+              (tm.Cfg('sim-n4-crash', [1, 1, 1, 1], [4], max_round=2, max_height=2, nbyz=1, budget=4, crashes=3,
+                      crash_set=[1, 2, 3], own_first=False, useful_only=True), n, d + 40)]
+    return p
 
 
 def run(ctx, replay=None):
-    run_family(ctx, 'C01', replay)
+    run_family(ctx, plan(ctx.tier), replay)
